@@ -134,6 +134,9 @@ pub enum Conv {
     Weak,
     /// as_thin: stored in the thin representation
     Thin,
+    /// a Node allocated with per-type metadata (then `erase_kind`) is given back the kind it was
+    /// allocated with (`from_ptr_with_kind`, contract met) and stored in that kind
+    Kind,
 }
 
 #[derive(Serialize, Deserialize, Clone, Copy, Debug, PartialEq, Eq)]
@@ -154,6 +157,19 @@ pub enum BKind {
     SwhTokPod,
     /// header without drop glue (u64), elements with destructors
     SwhPodTok,
+    /// GcSliceBuilder over zero-sized elements that have a destructor
+    SliceZst,
+    /// header with a destructor, zero-sized over-aligned elements that have a destructor
+    SwhZst,
+    /// GcSliceWithHeaderBuilder<Tok, Tok> carrying per-type metadata (a vtable of its own)
+    SwhMeta,
+    /// header and elements written through header_ptr / slice_ptr and the unsafe assume_init calls
+    SwhRaw,
+    /// GcBuilder taken apart with into_raw and put together again with from_raw before it is
+    /// completed (as_ptr + assume_init) or abandoned
+    SizedRaw,
+    /// GcStrBuilder completed through str_ptr + assume_init
+    StrRaw,
 }
 
 #[derive(Serialize, Deserialize, Clone, Copy, Debug, PartialEq, Eq)]
@@ -369,4 +385,7 @@ pub struct Trace {
     pub events: Vec<Event>,
     pub suffix: Suffix,
     pub quarantine: bool,
+    /// the allocator seam hands released addresses out again at once (identical layouts, LIFO)
+    #[serde(default)]
+    pub recycle: bool,
 }
